@@ -97,7 +97,15 @@ pub fn run_world_t(plan: &Rc<Plan>) -> Result<History, String> {
     let wr = RawRec { core: Rc::clone(&core), rec: Recorder::new(&core), events: Rc::clone(&events), polls: Rc::clone(&polls), log_every: (plan.seed % 3 == 0).then(|| 2 + (plan.seed / 3 % 5) as usize), logged: 0, busy: Rc::clone(&busy) };
     let opts = cli::Opts { re_filter: None, tags_filter: None, parser: cli::Empty, runner: runa::build_cli(plan), writer: cli::Empty, custom: cli::Empty };
     let warn = world::warn_filter_of(plan);
-    let base = Cucumber::<SimWorld, _, (), _, _, cli::Empty>::custom(SimParser(stream), runa::build_runner(plan), wr);
+    // Where the runner gets its configuration: before it enters the pipeline (0), or through `Cucumber`'s
+    // forwarding methods - called after tracing has been initialised (1: the order the book shows) or before (2).
+    let order = plan.seed / 7 % 3;
+    let base: crate::runp::CucOf<RawRec> = if order == 0 {
+        Cucumber::custom(SimParser(stream), runa::build_runner(plan), wr)
+    } else {
+        Cucumber::custom(SimParser(stream), runa::SimRunner::default(), wr)
+    };
+    let base = if order == 2 { crate::runp::hooks_and_classifiers(crate::runp::configure(base, plan), plan) } else { base };
     let cuc = if plan.tracing_targets_only {
         // only the user's own targets are enabled: cucumber's spans are filtered out
         base.configure_and_init_tracing(format::DefaultFields::new(), Format::default().without_time().with_ansi(false), |layer| {
@@ -107,8 +115,9 @@ pub fn run_world_t(plan: &Rc<Plan>) -> Result<History, String> {
         base.configure_and_init_tracing(format::DefaultFields::new(), Format::default().without_time().with_ansi(false), |layer| {
             tracing_subscriber::registry().with(if warn { LevelFilter::WARN } else { LevelFilter::INFO }.and_then(layer))
         })
-    }
-    .with_cli(opts);
+    };
+    let cuc = if order == 1 { crate::runp::hooks_and_classifiers(crate::runp::configure(cuc, plan), plan) } else { cuc };
+    let cuc = cuc.with_cli(opts);
     let ended = Rc::new(std::cell::Cell::new(false));
     let ended2 = Rc::clone(&ended);
     // Half of the runs poll the whole pipeline inside a span of the caller's own (a user who
